@@ -133,7 +133,7 @@ func c10LockLeftBehind(run *report.Run, n int) {
 	})
 }
 
-// c10InterruptedWaiter: build A holds the workspace lock (a slow target), build B starts, waits (or, every other case, is started with --skip-workspace-lock and runs to its end meanwhile)
+// c10InterruptedWaiter: build A holds the workspace lock (a slow target), build B starts, waits (or, every third case, is started with --skip-workspace-lock and runs to its end meanwhile; in another third all builds run with --enable-cache=false and the second is a plain contender)
 // for the lock and is interrupted (SIGINT / SIGTERM) while waiting, then build C starts. B's
 // way out must leave A's lock alone: the lock file still names A while A runs, no command of C
 // starts before A's build is over, and A and C both end normally.
@@ -173,21 +173,64 @@ func c10InterruptedWaiter(run *report.Run, n int) {
 			return false
 		}
 		sig := rng.Pick(r, []syscall.Signal{syscall.SIGINT, syscall.SIGTERM})
+		noCache := i%3 == 2
 		doneA := make(chan *grog.Result, 1)
 		var pidA int
 		go func() {
-			doneA <- env.M.Run([]string{"build", "//p:slow"}, grog.RunOpts{Build: "A", Timeout: 60 * time.Second, Env: []string{"GROG_VERIF_LOG=" + logA},
+			argsA := []string{"build", "//p:slow"}
+			if noCache {
+				argsA = []string{"build", "--enable-cache=false", "//p:slow"}
+			}
+			doneA <- env.M.Run(argsA, grog.RunOpts{Build: "A", Timeout: 60 * time.Second, Env: []string{"GROG_VERIF_LOG=" + logA},
 				AfterStart: func(pid int) { pidA = pid }})
 		}()
-		for w := 0; w < 250 && !saw(logA, "build.locked"); w++ {
+		inTarget := func() bool {
+			b, _ := os.ReadFile(env.M.Trace)
+			return strings.Contains(string(b), " A ")
+		}
+		for w := 0; w < 250 && !saw(logA, "build.locked") && !inTarget(); w++ {
 			time.Sleep(20 * time.Millisecond)
 		}
 		signalled := false
-		// every other case: B is not a waiter at all but a build started with --skip-workspace-lock
+		// every third case: B is not a waiter at all but a build started with --skip-workspace-lock
 		// that runs to its end while A holds the lock (it never took the lock, so it has none to give up)
-		skipB := i%2 == 1
+		skipB := i%3 == 1
 		cause := "interrupted-waiter"
 		var resB *grog.Result
+		if noCache {
+			// every third case: all three builds run with the cache disabled - which says nothing
+			// about the lock: the second build is a plain contender and is simply not interrupted
+			cause = "cache-disabled-builds"
+			resB = env.M.Run([]string{"build", "--enable-cache=false", "//p:quick"}, grog.RunOpts{Build: "C", Timeout: 60 * time.Second, Env: []string{"GROG_VERIF_LOG=" + logB}})
+			run.Count("contenders_with_the_cache_disabled", 1)
+			resA := <-doneA
+			run.Eval(1)
+			run.Nontrivial(fmt.Sprintf("%s|B-exit%d", cause, resB.Exit))
+			replay := map[string]any{"A": tail(resA.Stdout+resA.Stderr, 600), "B": tail(resB.Stdout+resB.Stderr, 600)}
+			b, _ := os.ReadFile(env.M.Trace)
+			lastA, firstC := -1, -1
+			for li, line := range strings.Split(string(b), "\n") {
+				f := strings.Fields(line)
+				if len(f) < 3 {
+					continue
+				}
+				if f[1] == "A" {
+					lastA = li
+				}
+				if f[1] == "C" && firstC < 0 {
+					firstC = li
+				}
+			}
+			replay["trace"] = tail(string(b), 600)
+			if firstC >= 0 && lastA > firstC {
+				keep = !run.Violation("two-builds-overlap cause="+cause, "a command of the second build started before the build holding the lock had finished (both builds run with --enable-cache=false, neither with --skip-workspace-lock)", replay) || keep
+				return
+			}
+			if resA.Exit != 0 || resB.Exit != 0 || resA.TimedOut || resB.TimedOut {
+				keep = !run.Violation("holder-or-newcomer-failed cause="+cause, fmt.Sprintf("holder exit=%d, contender exit=%d", resA.Exit, resB.Exit), replay) || keep
+			}
+			return
+		}
 		if skipB {
 			cause = "skip-lock-build-finished-meanwhile"
 			resB = env.M.Run([]string{"build", "--skip-workspace-lock", "//p:quick"}, grog.RunOpts{Build: "B", Timeout: 40 * time.Second, Env: []string{"GROG_VERIF_LOG=" + logB}})
